@@ -620,6 +620,8 @@ Rock::Rebuild::finalizeOrThrow(const sfileno fileNo, LoadingEntry &le)
     /* no hodgepodge entries: one entry - one full chain and no leftovers */
     Must(slotId < 0);
     Must(mappedSize == le.size);
+    // a known total entry size must have been reached
+    Must(!anchor.basics.swap_file_sz || le.size == anchor.basics.swap_file_sz);
 
     if (!anchor.basics.swap_file_sz)
         anchor.basics.swap_file_sz = le.size;
